@@ -1,6 +1,7 @@
 package sgip12
 
 import (
+	"math"
 	"time"
 
 	sms "github.com/hujm2023/go-sms-protocol"
@@ -62,4 +63,13 @@ func DecodeSGIP12(data []byte) (sms.PDU, error) {
 		return nil, err
 	}
 	return pdu, nil
+}
+
+// messageLen converts the 32-bit Message_Length of a submit / deliver to an int. On a platform whose int has 32 bits
+// a length above MaxInt32 would turn negative and be read as "no content" instead of being refused as too long.
+func messageLen(n uint32) int {
+	if n > math.MaxInt32 {
+		return math.MaxInt32
+	}
+	return int(n)
 }
